@@ -198,8 +198,8 @@ func isFieldIncDec(in ssa.Instruction, field string, delta int64) bool {
 	if !ok || f != field {
 		return false
 	}
-	bin, ok := st.Val.(*ssa.BinOp)
-	if !ok || !strings.HasSuffix(path(bin.X), "."+field) {
+	bin, ok := resolveVal(st.Val).(*ssa.BinOp) // also `n := t.f + 1; t.f = n`
+	if !ok || !strings.HasSuffix(path(resolveVal(bin.X)), "."+field) {
 		return false
 	}
 	if delta > 0 {
